@@ -22,7 +22,7 @@ for p in props:
         technique=c.get('technique', 'contract-based deductive verification: sidecar pre/postconditions and loop invariants on the real functions; VCs generated from the AST of /repo on every run and discharged by z3/cvc5; failing obligations replayed on the real code')))
 na = [dict(property_id=p['id'], reason=NOT_APPLICABLE.get(p['id'], 'not yet claimed: contracts for this property are still being written (work in progress, see DESIGN.md §4)')) for p in props if p['id'] not in CLAIMED]
 m = dict(version=1,
-         setup_cmd='python3-vt -m compileall -q pyvc contracts props oracles tools >/dev/null 2>&1; python3-vt -c "import z3, sympy" && /venv/bin/python -c "import atsim.potentials"',
+         setup_cmd='mkdir -p .scratch && (test -d .scratch/deps/sympy || /venv/bin/python -m pip install -q --no-index --find-links /opt/veriftools/wheels --target .scratch/deps sympy mpmath) && python3-vt -c "import z3, sympy" && /venv/bin/python -c "import atsim.potentials"',
          hooks=dict(guard='ATSIM_POTENTIALS_VERIF', enable='no source hooks: contracts are sidecar files under /verif/contracts, VCs are generated from the AST of /repo', 
                     baseline_off_cmd='cd /repo && /venv/bin/python -m pytest -ra -q -p no:cacheprovider --timeout=900 --continue-on-collection-errors',
                     source_commits=[], add_only=True),
